@@ -47,7 +47,8 @@ DEL = re.compile(r'^DELETE FROM "(\w+)"\s+WHERE (.*)$', re.S)
 
 def random_spec(rng):
     n = rng.choice([1, 1, 2, 2, 2, 3, 3, 4])
-    ents = [{'auto': rng.random() < 0.6} for _ in range(n)]
+    all_explicit = rng.random() < 0.3       # explicit primary keys everywhere: the statement list can be replayed in any order
+    ents = [{'auto': (not all_explicit) and rng.random() < 0.6} for _ in range(n)]
     rels = []
     for k in range(rng.choice([1, 1, 2, 2, 3, 4])):
         kind = rng.choice(['m2o', 'm2o', 'm2o', 'o2o', 'o2o', 'm2m'])
@@ -685,9 +686,9 @@ def report(ctx, spec, hist, strict, what, detail, shrunk=False):
     ctx.violation(what, {'spec': spec, 'history': hist, 'strict': strict}, observed=det, expected='flush succeeds / database unchanged', key=key)
 
 def run(ctx):
-    n = ctx.scale(120, 1500)
+    n = ctx.scale(400, 6000)
     runs = explore(ctx, False, n)
-    runs += explore(ctx, True, ctx.scale(40, 500))
+    runs += explore(ctx, True, ctx.scale(120, 2000))
     check_records(ctx, runs)
     check_fk_model(ctx, runs)
 
